@@ -60,6 +60,10 @@ CHECKS = {
   "text": "Seeded search over named stacks and histories mixing completion, failure, cancel while queued / between retries / in flight, a firing timeout layer, poll-function errors and an optional final shutdown x schedules, with a stub prometheus_client that records value and running minimum per label set. At quiescence: future_inprogress, retry_queue, throttle_queue are 0 when everything is terminal; exec_inprogress equals executors built minus shut down; no gauge ever negative; future_total / future_cancel / future_error of the top-level type, retry_total (delegate re-submissions seen by a submit tap), poll_total and poll_error equal the history's counts.",
   "note": "prometheus_client is absent from the sandbox: the stub implements Counter/Gauge labels().inc()/dec() only; *_time sums only checked >= 0; inner-layer counters are checked where the history determines them.",
   "design": "10 (C20)"},
+ "C13": {
+  "text": "Seeded search over chains of 1-4 map / flat_map steps in executor form and f_* form x input outcomes (value, exception; already done or completed by another thread) x scripted fn / error_fn behaviours (return, raise new, re-raise same, return None, return a future that is done / failed / cancelled / pending and completed by a third thread, return a non-future, omitted) x an output cancel racing the input x schedules. Oracles: sequential reference outcome with exception identity and original traceback frames, TypeError for non-futures, fn / error_fn called at most once and only for their case, identity when omitted, and the composed function evaluated in the same run (composition law).",
+  "note": "User functions contain explicit pre-emption points; the input-space part of the property (all values) is sampled, not enumerated.",
+  "design": "10 (C13)"},
 }
 def main():
     checks = []
